@@ -45,3 +45,29 @@ Example example_prune_fires :
     /\ irun 3 2 ix_empty (firstn 7 example_ops) = Some s7
     /\ length (ix_store s6) = 62 /\ length (ix_store s7) = 59.
 Proof. do 2 eexists. split; [|split; [|split]]; vm_compute; reflexivity. Qed.
+
+(* the hypotheses of rollback_inverts_append are met: the state after blocks
+   0..5 (reachable, hence Inv by inv_reachable), the valid block 6, and a
+   rollback that stays within the retention although prune fired at block 6 *)
+Example example_rollback_hyps :
+  exists s s1 s2, irun 3 2 ix_empty (firstn 6 example_ops) = Some s
+    /\ ops_ok 3 2 ix_empty (firstn 6 example_ops) = true
+    /\ block_ok (ix_chain s) ex_b6 = true
+    /\ istep 3 2 s (OAppend ex_b6) = Some s1
+    /\ op_ok s1 ORollback = true
+    /\ istep 3 2 s1 ORollback = Some s2
+    /\ length (ix_store s1) <> length (ix_store s2).
+Proof.
+  do 3 eexists. split; [|split; [|split; [|split; [|split; [|split]]]]]; try (vm_compute; reflexivity).
+  vm_compute. discriminate.
+Qed.
+
+(* the hypotheses of same_block_create_spend are met by block 1: tx 3 creates
+   (3,0), tx 4 of the same block spends it; block 1 is on the final chain *)
+Example example_same_block_hyps :
+  exists s, irun 3 2 ix_empty example_ops = Some s
+    /\ ix_chain s = [ex_b0] ++ ex_b1 :: [ex_b2; ex_b3; ex_b4; ex_c5; ex_c6; ex_c7]
+    /\ b_txs ex_b1 = [cb 2 sC] ++ mkTx 3 [(1, 0)]%N [mkOut sB None 500 []; mkOut sA (Some tT) 400 []]
+                      :: [] ++ mkTx 4 [(3, 0)]%N [mkOut sC None 450 []] :: []
+    /\ In (3, N.of_nat 0)%N (t_inputs (mkTx 4 [(3, 0)]%N [mkOut sC None 450 []])).
+Proof. eexists. split; [|split; [|split]]; try (vm_compute; reflexivity). left. reflexivity. Qed.
